@@ -40,10 +40,12 @@ type coordinator struct {
 
 	mu       sync.Mutex
 	regs     map[string][]reg // xid -> registered branches, until the global decision
+	dead     map[string]bool  // global transactions the coordinator timed out while they were running
 	tcc      map[int64]*tccBranch
 	p2failed int // branches whose phase two never reported the final status
 	swept    int // global transactions ended by the end-of-batch time-out
 	p2       sync.WaitGroup
+	early    atomic.Int64 // XA registrations seen (every sixth is timed out early)
 
 	// Session bookkeeping is free of harness locks on the paths that run next to the client's code (a
 	// lock here would order the client's accesses for the race detector): cur is read by the deliveries,
@@ -54,7 +56,7 @@ type coordinator struct {
 }
 
 func newCoordinator(t *tc.TC, first *tc.Session) *coordinator {
-	c := &coordinator{tc: t, regs: map[string][]reg{}, tcc: map[int64]*tccBranch{}, sessions: []*tc.Session{first}, nsess: 1}
+	c := &coordinator{tc: t, regs: map[string][]reg{}, dead: map[string]bool{}, tcc: map[int64]*tccBranch{}, sessions: []*tc.Session{first}, nsess: 1}
 	c.cur.Store(first)
 	t.Script = c.script
 	return c
@@ -104,6 +106,14 @@ func (c *coordinator) lose() (live int, ok bool) {
 func (c *coordinator) script(kind string, m tc.Msg) (tc.Reply, bool) {
 	switch req := m.Rpc.Body.(type) {
 	case message.BranchRegisterRequest:
+		c.mu.Lock()
+		dead := c.dead[req.Xid]
+		c.mu.Unlock()
+		if dead {
+			// the coordinator has timed this global transaction out: no more branches
+			return tc.Reply{Body: message.BranchRegisterResponse{AbstractTransactionResponse: message.AbstractTransactionResponse{
+				AbstractResultMessage: tc.FailResult("global transaction is not active")}}}, true
+		}
 		rep := c.tc.Model(kind, m)
 		if resp, ok := rep.Body.(message.BranchRegisterResponse); ok && resp.ResultCode == message.ResultCodeSuccess {
 			c.mu.Lock()
@@ -115,15 +125,58 @@ func (c *coordinator) script(kind string, m tc.Msg) (tc.Reply, bool) {
 		}
 		return rep, true
 	case message.GlobalCommitRequest:
+		if c.isDead(req.Xid) {
+			// timed out and being rolled back by the coordinator itself: the owner's commit comes too late
+			return tc.Reply{Body: message.GlobalCommitResponse{AbstractGlobalEndResponse: message.AbstractGlobalEndResponse{
+				AbstractTransactionResponse: message.AbstractTransactionResponse{AbstractResultMessage: tc.FailResult("global transaction timed out")},
+				GlobalStatus:                message.GlobalStatusTimeoutRollbacking}}}, true
+		}
 		c.finish(req.Xid, c.take(req.Xid), true)
 		return tc.Reply{}, false
 	case message.GlobalRollbackRequest:
+		if c.isDead(req.Xid) {
+			return tc.Reply{Body: message.GlobalRollbackResponse{AbstractGlobalEndResponse: message.AbstractGlobalEndResponse{
+				AbstractTransactionResponse: message.AbstractTransactionResponse{AbstractResultMessage: message.AbstractResultMessage{ResultCode: message.ResultCodeSuccess}},
+				GlobalStatus:                message.GlobalStatusTimeoutRollbacking}}}, true
+		}
 		bs := c.take(req.Xid)
 		rep := c.tc.Model(kind, m)
 		c.finish(req.Xid, bs, false)
 		return rep, true
 	}
 	return tc.Reply{}, false
+}
+
+// earlyTimeout is called when a database has carried out XA START for a branch of xid: for every sixth such
+// branch the coordinator times the global transaction out while the branch is still in phase one - its
+// rollback request races the rest of the statement (XA END / PREPARE, the connection going back to the pool or
+// to the keeper).  (A rollback that overtakes XA START itself is another matter: XA mode has no marker like
+// AT's to stop the late branch, and the properties do not ask for one.)
+func (c *coordinator) earlyTimeout(xid string) {
+	n := c.early.Add(1)
+	if n%6 != 0 || os.Getenv("VERIF_STRESS_NOEARLY") != "" {
+		return
+	}
+	c.p2.Add(1)
+	go func() {
+		defer c.p2.Done()
+		time.Sleep(time.Duration((n%7)*300) * time.Microsecond)
+		c.mu.Lock()
+		c.dead[xid] = true
+		c.mu.Unlock()
+		if bs := c.take(xid); len(bs) > 0 {
+			c.mu.Lock()
+			c.swept++
+			c.mu.Unlock()
+			c.finishPatiently(xid, bs)
+		}
+	}()
+}
+
+func (c *coordinator) isDead(xid string) bool {
+	c.mu.Lock()
+	defer c.mu.Unlock()
+	return c.dead[xid]
 }
 
 func (c *coordinator) take(xid string) []reg {
@@ -158,8 +211,27 @@ func (c *coordinator) finish(xid string, bs []reg, commit bool) {
 	}()
 }
 
-func (c *coordinator) deliver(xid string, b reg, commit bool) {
-	for try := 0; try < 5; try++ {
+// finishPatiently rolls the branches of a timed-out global transaction back the way the coordinator does it: in
+// reverse order, each one retried until the client reports it rolled back (a branch that is still in phase one
+// answers "retryable" until its statement is through) - for up to ten seconds
+func (c *coordinator) finishPatiently(xid string, bs []reg) {
+	c.mu.Lock()
+	for _, b := range bs {
+		if tb := c.tcc[b.bid]; tb != nil {
+			tb.decision = "rollback"
+		}
+	}
+	c.mu.Unlock()
+	for i := len(bs) - 1; i >= 0; i-- {
+		c.deliverN(xid, bs[i], false, 900)
+	}
+	c.tc.ReleaseLocks(xid)
+}
+
+func (c *coordinator) deliver(xid string, b reg, commit bool) { c.deliverN(xid, b, commit, 5) }
+
+func (c *coordinator) deliverN(xid string, b reg, commit bool, tries int) {
+	for try := 0; try < tries; try++ {
 		if b.bt == branch.BranchTypeTCC {
 			c.mu.Lock()
 			if tb := c.tcc[b.bid]; tb != nil {
@@ -177,6 +249,9 @@ func (c *coordinator) deliver(xid string, b reg, commit bool) {
 		if ok {
 			switch st {
 			case branch.BranchStatusPhasetwoCommitted, branch.BranchStatusPhasetwoRollbacked:
+				if debug && tries > 5 {
+					fmt.Fprintf(os.Stderr, "p2 early done: xid=%s bid=%d bt=%v try=%d status=%v\n", xid, b.bid, b.bt, try, st)
+				}
 				return
 			case branch.BranchStatusPhasetwoCommitFailedUnretryable, branch.BranchStatusPhasetwoRollbackFailedUnretryable:
 				if debug {
@@ -191,7 +266,13 @@ func (c *coordinator) deliver(xid string, b reg, commit bool) {
 		if debug {
 			fmt.Fprintf(os.Stderr, "p2 retry: xid=%s bid=%d bt=%v rid=%s commit=%v ok=%v status=%v\n", xid, b.bid, b.bt, b.rid, commit, ok, st)
 		}
-		time.Sleep(20 * time.Millisecond)
+		if tries > 5 && try < 400 {
+			// the patient coordinator first retries in quick, uneven steps: the request that gets through is the one
+			// that arrives just as the statement ends (prepare done, the connection on its way to the keeper)
+			time.Sleep(time.Duration(40+31*(try%23)) * time.Microsecond)
+		} else {
+			time.Sleep(20 * time.Millisecond)
+		}
 	}
 	c.mu.Lock()
 	c.p2failed++
